@@ -109,6 +109,20 @@ class MinMaxLengthType(DiagCodedType):
 
         data_length = len(raw_value)
 
+        # make sure that the value does not contain the termination
+        # sequence: the decoder would consider the value to end there
+        termination_sequence = self.__termination_sequence()
+        if termination_sequence:
+            n = len(termination_sequence)
+            start_pos = ((self.min_length + n - 1) // n) * n
+            for i in range(start_pos, data_length - n + 1, n):
+                if raw_value[i:i + n] == termination_sequence:
+                    odxraise(
+                        f"The value '{internal_value!r}' contains the termination "
+                        f"sequence 0x{termination_sequence.hex()} of the "
+                        f"MinMaxLengthType object", EncodeError)
+                    break
+
         if data_length < self.min_length:
             odxraise(
                 f"Encoded value for MinMaxLengthType "
